@@ -2,6 +2,7 @@ package c08
 
 import (
 	"fmt"
+	"math"
 	"regexp"
 	"sort"
 	"strconv"
@@ -23,7 +24,7 @@ import (
 
 func TestCheck(t *testing.T) {
 	vkit.Run(t, "C08", "exploration", func(r *vkit.R) {
-		r.Rule("max-in-flight: (S) seeded sequential op lists (fresh/stale/equal/zero request ids, counts 0..limit+2, removals, limit raised/lowered) on flowcontrol.NewGlobalFlowControl objects and " +
+		r.Rule("max-in-flight: (S) seeded sequential op lists (request ids as small integers and at UnixNano scale; fresh, equal, stale from 1 ns to hours behind incl. latest-3e10+-1, 1, <= 0; counts 0..limit+2, removals, limit raised/lowered) on flowcontrol.NewGlobalFlowControl objects and " +
 			"through the real server (DoAcquire / DeleteInstanceState / cluster handler), every answer and DebugInfo() compared with the reference model (model.go); " +
 			"(B) concurrent batches of five kinds (one writer per instance; several writers per instance; removals racing with other instances' reports; several removals of one instance; " +
 			"removal racing with the instance's own reports) with schedule points at the lock/atomic statements, accounting checked at quiescence; " +
@@ -42,7 +43,7 @@ func TestCheck(t *testing.T) {
 		tokenBucket(r)
 		r.ReportSched()
 		r.Require(r.Counter("seq_ops") >= 20000 && r.Counter("seq_increase_applied") >= 1000 && r.Counter("seq_increase_refused") >= 1000 &&
-			r.Counter("seq_stale_id") >= 500 && r.Counter("seq_removals") >= 500 && r.Counter("seq_decrease_while_over_limit") >= 100, "sequential part observed too little")
+			r.Counter("seq_stale_id") >= 500 && r.Counter("seq_stale_id_far_behind") >= 300 && r.Counter("seq_removals") >= 500 && r.Counter("seq_decrease_while_over_limit") >= 100, "sequential part observed too little")
 		r.Require(r.Counter("batch_racing-removals") >= 50 && r.Counter("batch_removal-vs-own-report") >= 50 && r.Counter("batch_reports") >= 50 &&
 			r.Counter("batch_reports-multiwriter") >= 50 && r.Counter("batch_removals-vs-other-reports") >= 50, "too few concurrent batches")
 		r.Require(r.Counter("batch_increase_refused") >= 200 && r.Counter("batch_decreases") >= 200, "batches did not reach the limit")
@@ -191,8 +192,11 @@ func classify(m *Model, in In, out Out) string {
 	stale := in.ID > 0 && exists && in.ID <= cur.LastID
 	switch {
 	case stale && !out.TooOld:
-		if in.ID == cur.LastID {
+		switch {
+		case in.ID == cur.LastID:
 			return "stale-id-accepted/equal-id"
+		case cur.LastID-in.ID > 1e9:
+			return "stale-id-accepted/far-older-id" // more than a second (in UnixNano ids) behind
 		}
 		return "stale-id-accepted/older-id"
 	case !stale && out.TooOld:
@@ -254,6 +258,7 @@ func sequential(r *vkit.R) {
 		}
 		m := NewModel(max)
 		k := g.Range(1, 5)
+		nano := i%3 != 0 // request ids at UnixNano scale (what gateways send) vs small integers
 		nextID := map[string]int64{}
 		var trace []seqOp
 		nontrivial := false
@@ -285,15 +290,36 @@ func sequential(r *vkit.R) {
 					nontrivial = true
 				case x < 30 && m.Inst[inst].LastID > 0:
 					kind = "stale"
-					in.ID = m.Inst[inst].LastID
-					if g.Bool() {
+					latest := m.Inst[inst].LastID
+					in.ID = latest
+					if nano {
+						// replays and re-ordered arrivals from nanoseconds to hours behind the latest processed id, and the
+						// boundaries around plausible "reorder windows"
+						behind := []int64{0, 1, 1000, 1e6, 1e9, 3e10 - 1, 3e10, 3e10 + 1, 6e10, 1e12, 3.6e12, 8.64e13, latest - 1, latest - math.MinInt64 - 1}
+						in.ID = latest - behind[g.Intn(len(behind))]
+						if in.ID == math.MinInt64 { // keep away from the overflow itself
+							in.ID++
+						}
+						if in.ID <= 0 {
+							r.Count("seq_nonpositive_id", 1) // ids <= 0 are not subject to the id rule (model.go)
+						} else if latest-in.ID > 1e9 {
+							r.Count("seq_stale_id_far_behind", 1)
+						}
+					} else if g.Bool() {
 						in.ID = int64(g.Range(1, int(in.ID)))
 					}
 					in.Count = int32(g.Range(0, int(m.Max)+2))
 					r.Count("seq_stale_id", 1)
 					nontrivial = true
 				default:
-					nextID[inst] += int64(g.Range(1, 3))
+					if nano {
+						if nextID[inst] == 0 {
+							nextID[inst] = 1700000000e9 + int64(g.Intn(1e9)) // RequestID = time.Now().UnixNano() at the gateway
+						}
+						nextID[inst] += []int64{1, 1000, 1e6, 2e8, 9e8, 2e9, 4e10, 1e12}[g.Intn(8)]
+					} else {
+						nextID[inst] += int64(g.Range(1, 3))
+					}
 					in.ID = nextID[inst]
 					if x >= 95 {
 						in.ID = 0 // unchecked id
